@@ -645,6 +645,13 @@ func genC08(r *Rng, n int, tier string) {
 	}
 	// ASCII panel that stays silent during the probe (2 s) and then talks
 	recs = append(recs, ndRecOf("net.c08", optsA, ndHandshake("s"), []string{ndW([]byte("HWC#5=Down\r\nping\n"))}))
+	// ASCII lines longer than bufio's 4096-byte buffer (e.g. a topology SVG on one line)
+	for _, ln := range []int{4097, 9000, 20000} {
+		long := "_panelTopology_svgbase=" + strings.Repeat("x", ln-23)
+		ls := []byte("_model=A\r\n" + long + "\n_serial=B\n")
+		vocL := [][]byte{[]byte("_model=A"), []byte(long), []byte("_serial=B")}
+		recs = append(recs, ndRecOf("net.c08", []string{"mode=a", "end=250", ndVoc(vocL)}, ndHandshake("a"), ndCutWrites(ls, ndRandCuts(r, len(ls), 3), 2)))
+	}
 	// (d) long streams: payload sizes 0, 1, 999-1001, 499 999, random cuts
 	nlong := 2
 	if thorough {
@@ -841,6 +848,12 @@ func ndInMsg(r *Rng, id uint32, kind int) *rwp.InboundMessage {
 		h := 64
 		w := 128 + 8*r.Intn(180)
 		return &rwp.InboundMessage{States: []*rwp.HWCState{{HWCIDs: []uint32{id}, HWCGfx: &rwp.HWCGfx{ImageType: rwp.HWCGfx_MONO, W: uint32(w), H: uint32(h), ImageData: r.Bytes(w / 8 * h)}}}}
+	case 4: // text state whose last field ends in white space (a writer that trims lines would change it on the wire)
+		tails := []string{" ", "  ", "\t", " x ", ""}
+		return &rwp.InboundMessage{States: []*rwp.HWCState{{HWCIDs: []uint32{id}, HWCText: &rwp.HWCText{Title: " T" + tails[r.Intn(len(tails))], Formatting: 7, Textline1: "ISO" + tails[r.Intn(len(tails))]}}}}
+	case 5: // graphics state whose protobuf encoding exceeds 64 KiB (length prefix needs more than 16 bits)
+		n := 65536 + r.Intn(90000)
+		return &rwp.InboundMessage{States: []*rwp.HWCState{{HWCIDs: []uint32{id}, HWCGfx: &rwp.HWCGfx{ImageType: rwp.HWCGfx_RGB16bit, W: 320, H: 240, ImageData: r.Bytes(n)}}}}
 	default:
 		return &rwp.InboundMessage{States: []*rwp.HWCState{{HWCIDs: []uint32{id, id + 1}, HWCMode: &rwp.HWCMode{State: rwp.HWCMode_DIMMED}}}}
 	}
@@ -881,9 +894,12 @@ func genC09(r *Rng, n int, tier string) {
 				msgs := []*rwp.InboundMessage{}
 				items := [][]byte{}
 				for j := 0; j < nm; j++ {
-					kind := r.Intn(4)
+					kind := r.Intn(5)
 					if kind == 2 && r.Chance(60) {
 						kind = 0
+					}
+					if r.Chance(3) && nm <= 12 {
+						kind = 5
 					}
 					m := ndInMsg(r, uint32(1+g*100000+i*1000+j*2), kind)
 					msgs = append(msgs, m)
@@ -931,6 +947,41 @@ func genC09(r *Rng, n int, tier string) {
 			opts = append(opts, "qcap=10")
 		}
 		recs = append(recs, ndRecOf("net.c09", opts, append([][]string{ptoks}, subSecs...)...))
+	}
+	// submissions long after the panel's last frame: one event from the panel, a submission, 2.6 s of silence, two more
+	for _, mode := range []string{"b", "a"} {
+		toks := []string{"sub", "h"}
+		total := 6
+		if mode == "a" {
+			total++
+		}
+		for i := 0; i < 3; i++ {
+			m := ndInMsg(r, uint32(900+i), 0)
+			b, _ := proto.Marshal(m)
+			if mode == "a" {
+				for _, l := range rawpanellib.InboundMessagesToRawPanelASCIIstrings([]*rwp.InboundMessage{m}) {
+					total += len(l) + 1
+				}
+			} else {
+				total += 4 + len(b)
+			}
+			toks = append(toks, "m"+ndItems([][]byte{b}))
+			if i == 0 {
+				toks = append(toks, ndS(2600))
+			}
+		}
+		ptoks := ndHandshake(mode)
+		voc := [][]byte{}
+		if mode == "b" {
+			p := ndEvent(7, true)
+			voc = append(voc, p)
+			ptoks = append(ptoks, ndW(ndFrame(p)))
+		} else {
+			voc = append(voc, []byte("HWC#7=Down"))
+			ptoks = append(ptoks, ndW([]byte("HWC#7=Down\n")))
+		}
+		ptoks = append(ptoks, fmt.Sprintf("p%d:9000", total))
+		recs = append(recs, ndRecOf("net.c09", []string{"mode=" + mode, "end=150", ndVoc(voc)}, ptoks, toks))
 	}
 	_ = n
 	ndEmitBatch(recs)
